@@ -45,7 +45,8 @@ CHECKS = {
               '5/C05'),
     'C07': _s('BFS over pressure histories; the queue handed to placement is '
               'captured per cycle and every displaced healthy instance must '
-              'have a gainer strictly ahead of it.', '5/C07'),
+              'have a gainer strictly ahead of it (templates include '
+              'priority-0 ties, leases, two allocations, reboot buckets).', '5/C07'),
     'C08': _s('BFS over down/up/frozen transitions and clock advances around '
               'the retention timeouts against a reference automaton on '
               'logical seconds.', '5/C08'),
@@ -58,7 +59,10 @@ CHECKS = {
               'following publication step (reschedule or start-up of a new '
               'master) is cut after each of its k storage writes; no double '
               'record at the cut; a new master on the cut state must start, '
-              'pass its integrity check and publish its model.', '5/C10',
+              'pass its integrity check and publish its model; the cut is '
+              'also placed inside event handlers, and a master that dies in '
+              'the step by its own exception counts as one more cut; single-'
+              'and two-partition configurations.', '5/C10',
               note=NOTE_B,
               tech='explicit-state model checking of the implementation x '
                    'exhaustive crash-point enumeration over the storage '
@@ -77,8 +81,13 @@ CHECKS = {
               'product slices; both Allocation.utilization_queue output and '
               'the order/final_rank handed to Cell._find_placements by a real '
               'Cell.schedule() are judged against an integer reference written '
-              'from the statement; a second sweep drives Loader.'
-              'load_allocations/load_app/find_assignment.', '5/C06',
+              'from the statement (reservation menus include partially-zero '
+              'vectors); a second sweep drives Loader.'
+              'load_allocations/load_app/find_assignment; a third, dynamic '
+              'slice runs every add/move/remove sequence (depth <=4, 2 '
+              'allocations x 2 instances) on the real Cell.add_app/remove_app '
+              'and checks exactly-once queue membership after each step.',
+              '5/C06',
               note='virtual clock gives distinct increasing global_order; '
                    'priority-0 = infinite utilisation by definition; boost '
                    'clause one-directional; integer menus; full 36x24 product '
@@ -92,7 +101,10 @@ CHECKS = {
               '(quick) / 3 (thorough) slots; every FS step of the write path '
               '(mkstemp, each stream write incl. torn writes, fchmod, close, '
               'replace, unlink) is failed (OSError) and killed (directory '
-              'snapshot), each followed by a restart and re-sync.', '5/C12',
+              'snapshot), each followed by a restart and re-sync; a start-up '
+              'slice drives the real EventMgr.run watch registration '
+              '(placement_ready order) over cache files left by a previous '
+              'run.', '5/C12',
               note='fake ZooKeeper; st_ctime of cache files assigned by the '
                    'harness; process-kill semantics (no power-loss/fsync '
                    'model); rename/unlink atomic; only non-dot names judged',
@@ -122,7 +134,9 @@ CHECKS = {
                    'dedup validated by a bisimulation spot-check, crash-point '
                    'enumeration inside handlers)'),
     'C14': _s('Explicit-state BFS over allocate/release/collect/owner-appears/'
-              'disappears sequences of 2 (quick) / 3 (thorough) owners on the '
+              'disappears/filtered-unlink_all sequences of 2 (quick) / 3 '
+              '(thorough) owners (endpoint names that are prefixes of each '
+              'other) on the '
               'real VipMgr (/30, /29, and two pools sharing one directory), '
               'RuleMgr, EndpointsMgr and '
               'NetworkResourceService on temp directories against a dict '
@@ -157,7 +171,8 @@ CHECKS = {
               engine='boundx'),
     'C16': _s('Bounded-exhaustive sweep over manifests (endpoint lists x '
               'ports x infra, ephemeral tcp/udp 0-2, passthrough menus, vring, '
-              'shared_network, shared_ip, environments, 3 enumerated port '
+              'shared_network, shared_ip, all four environments (pool oracle '
+              'per environment), 3 enumerated port '
               'orders): real allocate_network_ports, _unshare_network, then '
               '_cleanup_network (+_cleanup_ephemeral_ports), finish again, on '
               'a host holding a foreign container\'s registrations; rules dir, '
@@ -200,7 +215,8 @@ CHECKS = {
               'the expiry, batch sizes, existing snapshots; every run is '
               'killed before each ZooKeeper write in turn, and each write in '
               'turn is made to fail with ConnectionLoss (request lost / applied '
-              'but reply lost), then re-run; '
+              'but reply lost), then re-run; a second cleanup cycle with the '
+              'same client follows every schedule change; '
               'snapshots are inflated and opened with sqlite3.', '5/C18',
               note='fake ZooKeeper; atomic ordered writes; one archiver '
                    'session; get_children order is a menu; payloads of trace '
@@ -221,14 +237,20 @@ CHECKS = {
                    'judged on the merged record',
               tech=TECH_BOUNDX, engine='boundx'),
     'C20': _s('Explicit-state BFS over histories of the real appmonitor.'
-              'reevaluate under the virtual clock with a fake REST client '
+              'reevaluate and the real _run_sync watch callbacks '
+              '(_scheduled_watch, _appmonitors_watch, _monitor_data_watch '
+              'under the real ExistingDataWatch) on a tiny in-memory '
+              'ZooKeeper client, under the virtual clock with a fake REST '
+              'client; children of /scheduled delivered sorted/reversed/'
+              'interleaved '
               '(answers ok/NotFound/BadRequest/Validation/other; clock '
               'advances; instances die/appear; count changed; monitor deleted/'
               're-created; restart) for all single monitors (count 0-3 x '
               'policy) and 6 pairs, with drain and convergence continuations '
               'from every state; reference token bucket.', '5/C20',
-              note='mirrored _run_sync watch glue; scheduled view up to date '
-                   'at every evaluation; fake REST/zk/alert; virtual clock '
+              note='_run_sync entered with once=True and a capturing '
+                   'reevaluate stub for the start-up call only; scheduled '
+                   'view up to date at every evaluation; fake REST/zk/alert; virtual clock '
                    'whole seconds', engine='statex'),
 }
 
